@@ -23,7 +23,7 @@ MANIFEST = {
 }
 MANIFEST["text"] += " " + (
     'Added after the seeding waves: triples with datetime time stamps, the named graphs with small noise (internal guards must not fire), non-emitting noise smaller than the emitting one, and the SQLite backend with small numeric time stamps and a finite initial radius; the pairs-vs-triples comparison also after an extension (match prefix, match(all, expand=True)), a widening and a re-run on the width-limited configurations.')
-BUDGET = {"quick": 600, "thorough": 3000}
+BUDGET = {"quick": 900, "thorough": 3000}
 RULE = ("states = (input, configuration, metric) pairs of runs, transitions = matcher executions, traces validated = pairs-vs-triples "
         "comparisons; non-trivial = the trace contains an observation exactly on a node/edge, a repeat, or the map has a zero-length "
         "road; outcomes = canonical results.")
